@@ -1,1 +1,263 @@
-//! oracle for aes — to be written from the specification
+//! FIPS-197 AES, written from the standard (sections 4, 5.1-5.3): byte-array state in input order
+//! (state byte (r, c) = block[r + 4c]), S-box generated from its algebraic definition, textbook KeyExpansion,
+//! Cipher, InvCipher and EqInvCipher (5.3.5).  Leaves are parameters so that wiring queries can share uninterpreted
+//! functions with the implementation.
+
+/// Multiplication in GF(2^8) modulo x^8 + x^4 + x^3 + x + 1.
+pub const fn gmul(mut a: u8, mut b: u8) -> u8 {
+    let mut p = 0u8;
+    let mut i = 0;
+    while i < 8 {
+        if b & 1 == 1 {
+            p ^= a;
+        }
+        let hi = a & 0x80;
+        a <<= 1;
+        if hi != 0 {
+            a ^= 0x1b;
+        }
+        b >>= 1;
+        i += 1;
+    }
+    p
+}
+const fn ginv(a: u8) -> u8 {
+    // a^254
+    if a == 0 {
+        return 0;
+    }
+    let mut r = 1u8;
+    let mut i = 0;
+    while i < 254 {
+        r = gmul(r, a);
+        i += 1;
+    }
+    r
+}
+const fn affine(x: u8) -> u8 {
+    x ^ x.rotate_left(1) ^ x.rotate_left(2) ^ x.rotate_left(3) ^ x.rotate_left(4) ^ 0x63
+}
+const fn gen_sbox() -> [u8; 256] {
+    let mut t = [0u8; 256];
+    let mut i = 0;
+    while i < 256 {
+        t[i] = affine(ginv(i as u8));
+        i += 1;
+    }
+    t
+}
+const fn gen_inv(t: &[u8; 256]) -> [u8; 256] {
+    let mut o = [0u8; 256];
+    let mut i = 0;
+    while i < 256 {
+        o[t[i] as usize] = i as u8;
+        i += 1;
+    }
+    o
+}
+pub const SBOX: [u8; 256] = gen_sbox();
+pub const INV_SBOX: [u8; 256] = gen_inv(&SBOX);
+
+pub fn sbox(x: u8) -> u8 {
+    SBOX[x as usize]
+}
+pub fn inv_sbox(x: u8) -> u8 {
+    INV_SBOX[x as usize]
+}
+
+pub type State = [u8; 16];
+
+pub fn xor(a: &State, b: &State) -> State {
+    let mut o = [0u8; 16];
+    let mut i = 0;
+    while i < 16 {
+        o[i] = a[i] ^ b[i];
+        i += 1;
+    }
+    o
+}
+pub fn sub_bytes_with<S: Fn(u8) -> u8>(s: &State, sb: &S) -> State {
+    let mut o = [0u8; 16];
+    let mut i = 0;
+    while i < 16 {
+        o[i] = sb(s[i]);
+        i += 1;
+    }
+    o
+}
+/// ShiftRows: row r is rotated left by r: s'[r][c] = s[r][(c + r) mod 4].
+pub fn shift_rows(s: &State) -> State {
+    let mut o = [0u8; 16];
+    let mut c = 0;
+    while c < 4 {
+        let mut r = 0;
+        while r < 4 {
+            o[r + 4 * c] = s[r + 4 * ((c + r) % 4)];
+            r += 1;
+        }
+        c += 1;
+    }
+    o
+}
+pub fn inv_shift_rows(s: &State) -> State {
+    let mut o = [0u8; 16];
+    let mut c = 0;
+    while c < 4 {
+        let mut r = 0;
+        while r < 4 {
+            o[r + 4 * ((c + r) % 4)] = s[r + 4 * c];
+            r += 1;
+        }
+        c += 1;
+    }
+    o
+}
+fn mix_with(s: &State, m: [u8; 4]) -> State {
+    // column' = circulant(m) * column
+    let mut o = [0u8; 16];
+    let mut c = 0;
+    while c < 4 {
+        let mut r = 0;
+        while r < 4 {
+            let mut v = 0u8;
+            let mut k = 0;
+            while k < 4 {
+                v ^= gmul(m[(k + 4 - r) % 4], s[k + 4 * c]);
+                k += 1;
+            }
+            o[r + 4 * c] = v;
+            r += 1;
+        }
+        c += 1;
+    }
+    o
+}
+pub fn mix_columns(s: &State) -> State {
+    mix_with(s, [2, 3, 1, 1])
+}
+pub fn inv_mix_columns(s: &State) -> State {
+    mix_with(s, [0x0e, 0x0b, 0x0d, 0x09])
+}
+
+/// The unkeyed part of a full round / of the last round, and their inverses (what AESENC/AESENCLAST/AESDEC/AESDECLAST
+/// compute before the final XOR with the round key).
+pub fn round_core(s: &State) -> State {
+    mix_columns(&shift_rows(&sub_bytes_with(s, &sbox)))
+}
+pub fn last_core(s: &State) -> State {
+    shift_rows(&sub_bytes_with(s, &sbox))
+}
+pub fn inv_round_core(s: &State) -> State {
+    // EqInvCipher round: InvSubBytes, InvShiftRows, InvMixColumns
+    inv_mix_columns(&inv_shift_rows(&sub_bytes_with(s, &inv_sbox)))
+}
+pub fn inv_last_core(s: &State) -> State {
+    inv_shift_rows(&sub_bytes_with(s, &inv_sbox))
+}
+
+pub fn sub_word(w: u32) -> u32 {
+    let b = w.to_be_bytes();
+    u32::from_be_bytes([sbox(b[0]), sbox(b[1]), sbox(b[2]), sbox(b[3])])
+}
+pub const RCON: [u8; 10] = [0x01, 0x02, 0x04, 0x08, 0x10, 0x20, 0x40, 0x80, 0x1b, 0x36];
+
+pub const MAX_RK: usize = 15;
+/// KeyExpansion (5.2).  `key` holds nk*4 bytes (nk = 4, 6, 8); returns the nr+1 round keys (nr = nk + 6) as blocks.
+/// Words are big-endian (w = b0 b1 b2 b3 with b0 the first key byte), as in the standard.
+pub fn key_expansion_with<W: Fn(u32) -> u32>(key: &[u8], nk: usize, subword: W) -> [State; MAX_RK] {
+    let nr = nk + 6;
+    let mut w = [0u32; 60];
+    let mut i = 0;
+    while i < nk {
+        w[i] = u32::from_be_bytes([key[4 * i], key[4 * i + 1], key[4 * i + 2], key[4 * i + 3]]);
+        i += 1;
+    }
+    while i < 4 * (nr + 1) {
+        let mut t = w[i - 1];
+        if i % nk == 0 {
+            t = subword(t.rotate_left(8)) ^ ((RCON[i / nk - 1] as u32) << 24);
+        } else if nk > 6 && i % nk == 4 {
+            t = subword(t);
+        }
+        w[i] = w[i - nk] ^ t;
+        i += 1;
+    }
+    let mut rk = [[0u8; 16]; MAX_RK];
+    let mut r = 0;
+    while r <= nr {
+        let mut c = 0;
+        while c < 4 {
+            let b = w[4 * r + c].to_be_bytes();
+            rk[r][4 * c] = b[0];
+            rk[r][4 * c + 1] = b[1];
+            rk[r][4 * c + 2] = b[2];
+            rk[r][4 * c + 3] = b[3];
+            c += 1;
+        }
+        r += 1;
+    }
+    rk
+}
+
+/// Cipher (5.1) with the unkeyed round bodies as parameters.
+pub fn cipher_with<R: Fn(&State) -> State, L: Fn(&State) -> State>(rk: &[State; MAX_RK], nr: usize, block: &State, round: R, last: L) -> State {
+    let mut s = xor(block, &rk[0]);
+    let mut r = 1;
+    while r < nr {
+        s = xor(&round(&s), &rk[r]);
+        r += 1;
+    }
+    xor(&last(&s), &rk[nr])
+}
+/// Cipher with the byte S-box as parameter (linear layers real).
+pub fn cipher_sb_with<S: Fn(u8) -> u8>(rk: &[State; MAX_RK], nr: usize, block: &State, sb: S) -> State {
+    cipher_with(rk, nr, block, |s| mix_columns(&shift_rows(&sub_bytes_with(s, &sb))), |s| shift_rows(&sub_bytes_with(s, &sb)))
+}
+/// InvCipher (5.3), straight form: InvShiftRows, InvSubBytes, AddRoundKey, InvMixColumns.
+pub fn inv_cipher_sb_with<S: Fn(u8) -> u8>(rk: &[State; MAX_RK], nr: usize, block: &State, isb: S) -> State {
+    let mut s = xor(block, &rk[nr]);
+    let mut r = nr - 1;
+    while r >= 1 {
+        s = sub_bytes_with(&inv_shift_rows(&s), &isb);
+        s = inv_mix_columns(&xor(&s, &rk[r]));
+        r -= 1;
+    }
+    xor(&sub_bytes_with(&inv_shift_rows(&s), &isb), &rk[0])
+}
+/// EqInvCipher (5.3.5): dw[0] = w[nr], dw[i] = InvMixColumns(w[nr - i]) for 0 < i < nr, dw[nr] = w[0].
+pub fn eq_inv_keys_with<M: Fn(&State) -> State>(rk: &[State; MAX_RK], nr: usize, imc: M) -> [State; MAX_RK] {
+    let mut dw = [[0u8; 16]; MAX_RK];
+    dw[0] = rk[nr];
+    let mut i = 1;
+    while i < nr {
+        dw[i] = imc(&rk[nr - i]);
+        i += 1;
+    }
+    dw[nr] = rk[0];
+    dw
+}
+pub fn eq_inv_cipher_with<R: Fn(&State) -> State, L: Fn(&State) -> State>(dw: &[State; MAX_RK], nr: usize, block: &State, round: R, last: L) -> State {
+    // same shape as Cipher, with the inverse round bodies and the transformed keys
+    cipher_with(dw, nr, block, round, last)
+}
+
+fn nk_of(keylen: usize) -> usize {
+    keylen / 4
+}
+pub fn encrypt(key: &[u8], block: &State) -> State {
+    let nk = nk_of(key.len());
+    let rk = key_expansion_with(key, nk, sub_word);
+    cipher_sb_with(&rk, nk + 6, block, sbox)
+}
+pub fn decrypt(key: &[u8], block: &State) -> State {
+    let nk = nk_of(key.len());
+    let rk = key_expansion_with(key, nk, sub_word);
+    inv_cipher_sb_with(&rk, nk + 6, block, inv_sbox)
+}
+/// Decryption through the equivalent inverse cipher (must equal `decrypt`; checked natively and by an oracle-only query).
+pub fn decrypt_eq(key: &[u8], block: &State) -> State {
+    let nk = nk_of(key.len());
+    let rk = key_expansion_with(key, nk, sub_word);
+    let dw = eq_inv_keys_with(&rk, nk + 6, inv_mix_columns);
+    eq_inv_cipher_with(&dw, nk + 6, block, inv_round_core, inv_last_core)
+}
